@@ -40,9 +40,12 @@ class Env:
     self.known = dict(known or {})      # optional name/attribute -> 'none' | 'some' (decided by an enclosing test)
     self.localdefs = dict(localdefs or {})  # nested function name -> ast.FunctionDef (inlined at each call)
     self.hints = dict(hints or {})      # name -> type of an empty-list initialiser
+    self.verbatim = {}                  # exact source of a statement -> handler(tr, env) -> (code, env2)
 
   def copy(self):
-    return Env(self.names, self.attrs, self.calls, self.methods, self.known, self.localdefs, self.hints)
+    e = Env(self.names, self.attrs, self.calls, self.methods, self.known, self.localdefs, self.hints)
+    e.verbatim = self.verbatim
+    return e
 
 
 def dotted(node):
@@ -79,6 +82,9 @@ class Tr:
     self.checks = []          # pending divisor checks (safe mode)
     self.seen_types = {}
     self.ret_type = None
+    self.fuel = None          # name of the fuel argument: `while` loops become a fuelled local fixpoint, the result an option
+    self.nat_plus_literal = False   # len(..) + 1 stays a natural number
+    self.join_ifs = False     # compile `if` statements whose branches only assign names as one tuple-valued conditional
 
   def pre(self):
     """Code for the divisor checks collected while compiling the current statement's expressions."""
@@ -118,6 +124,17 @@ class Tr:
       fail(n, 'unknown attribute')
     if isinstance(n, ast.List) and not n.elts:
       fail(n, 'empty list literal outside a typed initialisation')
+    if isinstance(n, ast.List):
+      parts = [self.expr(e, env) for e in n.elts]
+      if all(t == 'N' for _, t in parts):
+        return ('[' + '; '.join(c for c, _ in parts) + ']', 'S')
+      fail(n, 'list literal')
+    if isinstance(n, ast.Dict) and len(n.keys) == 1 and n.keys[0] is not None:
+      k, kt = self.expr(n.keys[0], env)
+      v, vt = self.expr(n.values[0], env)
+      if vt == 'S':
+        return ('(dd_set [] %s %s)' % (toZ(k, kt), v), 'DS')
+      return ('(ad_set [] %s %s)' % (toZ(k, kt), v), 'A' + vt)
     if isinstance(n, ast.Subscript):
       d = dotted(n.value)
       if (isinstance(n.slice, ast.UnaryOp) and isinstance(n.slice.op, ast.USub) and isinstance(n.slice.operand, ast.Constant)
@@ -226,6 +243,8 @@ class Tr:
       if nm == 'neqb':
         return ('(negb (Z.eqb %s %s))' % (a, b), 'B')
       return ('(Z.%s %s %s)' % (nm, a, b), 'B')
+    if ta == 'K' and tb == 'K' and nm in ('ltb', 'gtb'):
+      return ('(ltk %s %s)' % ((a, b) if nm == 'ltb' else (b, a)), 'B')
     if 'V' in (ta, tb):
       a, b = toV(a, ta), toV(b, tb)
       if nm in ('gtb', 'geb'):
@@ -258,6 +277,9 @@ class Tr:
     if ta in ('N', 'Z', 'B') and tb in ('N', 'Z', 'B'):
       if ta == 'N' and tb == 'N' and op is ast.Add:
         return ('(%s + %s)' % (a, b), 'N')
+      if (self.nat_plus_literal and ta == 'N' and op is ast.Add and isinstance(n.right, ast.Constant)
+          and isinstance(n.right.value, int) and not isinstance(n.right.value, bool) and n.right.value >= 0):
+        return ('(%s + %d)%%nat' % (a, n.right.value), 'N')
       f = {ast.Add: '+', ast.Sub: '-', ast.Mult: '*'}.get(op)
       if f is None:
         fail(n, 'integer operator')
@@ -363,8 +385,162 @@ class Tr:
     self.ret_type = 'B'
     return '(existsb (fun %s => %s) %s)' % (s.target.id, self.truth(c, t, s), it)
 
+
+  COQTYPES = {'N': 'nat', 'Z': 'Z', 'B': 'bool', 'S': 'set', 'V': 'V', 'K': 'K', 'DS': '(list (Z * list nat))', 'U': 'unit'}
+
+  def coqtype(self, t):
+    if t in self.COQTYPES:
+      return self.COQTYPES[t]
+    if t.startswith('A'):
+      return '(list (Z * %s))' % self.coqtype(t[1:])
+    if t.startswith('L'):
+      return '(list %s)' % self.coqtype(t[1:])
+    if t.startswith('P'):
+      a, b = t[1:].split(',', 1)
+      return '(%s * %s)' % (self.coqtype(a), self.coqtype(b))
+    if t in getattr(self, 'extra_coqtypes', {}):
+      return self.extra_coqtypes[t]
+    raise Unsupported('no Coq type for %s' % t)
+
+  @staticmethod
+  def simple_assignments(stmts):
+    return bool(stmts) and all(isinstance(x, ast.Assign) and len(x.targets) == 1 and isinstance(x.targets[0], ast.Name)
+                               for x in stmts)
+
+  def join_if(self, s, rest, env, tail, in_loop):
+    """if c: a = ..; b = ..  [else: a = ..]   ==>   let '(a, b) := if c then (.., ..) else (.., ..) in rest"""
+    names = self.assigned(list(s.body) + list(s.orelse))
+    c, t = self.expr(s.test, env)
+    c = self.truth(c, t, s)
+    pre = self.pre()
+    found = {}
+
+    def probe(tag):
+      def k(e):
+        found[tag] = [e.names[v][1] if v in e.names else None for v in names]
+        return 'tt'
+      return k
+    saved = dict(self.seen_types)
+    self.block(list(s.body), env, probe('a'), in_loop)
+    self.block(list(s.orelse), env, probe('b'), in_loop)
+    self.seen_types = saved
+    target = []
+    for ta, tb in zip(found['a'], found['b']):
+      if ta is None or tb is None:
+        return None
+      if ta == tb:
+        target.append(ta)
+      elif {ta, tb} <= {'N', 'Z', 'B'}:
+        target.append('Z')
+      elif 'D?' in (ta, tb) and (ta + tb).replace('D?', '', 1).startswith('D'):
+        target.append(ta if ta != 'D?' else tb)
+      else:
+        return None
+
+    def out(e):
+      parts = []
+      for v, tt in zip(names, target):
+        cc, ct = e.names[v]
+        parts.append(cc if (ct == tt or ct == 'D?') else toZ(cc, ct))
+      return parts[0] if len(parts) == 1 else '(' + ', '.join(parts) + ')'
+    a = self.block(list(s.body), env, out, in_loop)
+    b = self.block(list(s.orelse), env, out, in_loop)
+    env2 = env.copy()
+    for v, tt in zip(names, target):
+      env2.names[v] = (v, tt)
+      self.seen_types[v] = tt
+    pat = names[0] if len(names) == 1 else "'(" + ', '.join(names) + ')'
+    return pre + 'let %s := (if %s\n then %s\n else %s) in\n%s' % (pat, c, a, b, self.block(rest, env2, tail, in_loop))
+
+
+  def join_none_if(self, s, rest, env, tail, in_loop):
+    """if self.parameters.F is None: <fill F in>  else: <read F>   (straight-line branches)
+       ==>  let '(names.., F__, par) := match F with None => (..) | Some F__ => (..) end in rest   -- one copy of rest"""
+    nt = self.none_test(s.test, env)
+    if nt is None or nt[0] != 'attr':
+      return None
+    kind, key, coq, inner, none_first = nt
+    stmts = list(s.body) + list(s.orelse)
+    if any(isinstance(x, (ast.For, ast.While, ast.Continue, ast.Break, ast.Return, ast.Raise, ast.FunctionDef))
+           for st in stmts for x in ast.walk(st)):
+      return None
+    body_none, body_some = (s.body, s.orelse) if none_first else (s.orelse, s.body)
+    var = key.replace('.', '_').replace('self_parameters_', '') + '__'
+    env_n, env_s = env.copy(), env.copy()
+    env_n.known[key] = 'none'
+    env_s.attrs[key] = (var, inner)
+    env_s.known[key] = 'some'
+    names = self.assigned(stmts)
+    found = {}
+
+    def probe(tag):
+      def k(e):
+        found[tag] = ({v: e.names[v][1] for v in names if v in e.names}, e.attrs.get(key, (None, None))[1], e.known.get(key))
+        return 'tt'
+      return k
+    saved = dict(self.seen_types)
+    self.block(list(body_none), env_n, probe('n'), in_loop)
+    self.block(list(body_some), env_s, probe('s'), in_loop)
+    self.seen_types = saved
+    (tn, an, kn), (ts, as_, ks) = found['n'], found['s']
+    if (an, kn) != (inner, 'some') or (as_, ks) != (inner, 'some'):
+      return None
+    joined, target = [], []
+    for v in names:
+      if v in tn and v in ts:
+        if tn[v] == ts[v]:
+          joined.append(v); target.append(tn[v])
+        elif {tn[v], ts[v]} <= {'N', 'Z', 'B'}:
+          joined.append(v); target.append('Z')
+        else:
+          return None
+
+    def out(e):
+      parts = []
+      for v, tt in zip(joined, target):
+        cc, ct = e.names[v]
+        parts.append(cc if ct == tt else toZ(cc, ct))
+      return '(' + ', '.join(parts + [e.attrs[key][0], 'par']) + ')'
+    a = self.block(list(body_none), env_n, out, in_loop)
+    b = self.block(list(body_some), env_s, out, in_loop)
+    env2 = env.copy()
+    for v, tt in zip(joined, target):
+      env2.names[v] = (v, tt)
+      self.seen_types[v] = tt
+    env2.attrs[key] = (var, inner)
+    env2.known[key] = 'some'
+    pat = "'(" + ', '.join(joined + [var, 'par']) + ')'
+    return ('let %s := (match %s with\n | None => %s\n | Some %s => %s\n end) in\n%s'
+            % (pat, coq, a, var, b, self.block(rest, env2, tail, in_loop)))
+
+  def while_loop(self, s, rest, env, tail, in_loop):
+    if not self.fuel or in_loop or s.orelse or self.mode != 'value':
+      fail(s, 'while loop')
+    if self.has_raise(s.body):
+      fail(s, 'raise inside a loop')
+    accs = [x for x in self.assigned(s.body) if x in env.names]
+    if not accs:
+      fail(s, 'while loop without state')
+    c, t = self.expr(s.test, env)
+    cond = self.truth(c, t, s)
+    if self.pre():
+      fail(s, 'while condition with a checked division')
+    types = ' * '.join(self.coqtype(env.names[x][1]) for x in accs)
+    saved = dict(self.seen_types)
+    body = self.block(list(s.body), env, lambda e: self.tup(accs, e), in_loop=False)
+    for x in accs:
+      if self.seen_types.get(x, env.names[x][1]) != env.names[x][1] and saved.get(x) != self.seen_types.get(x):
+        fail(s, 'loop-carried variable %s changes type' % x)
+    pat = self.pat(accs, env) if len(accs) > 1 else env.names[accs[0]][0]
+    after = self.block(rest, env, tail, in_loop)
+    return ('match (fix loop__ (fuel__ : nat) (st__ : %s) {struct fuel__} : option (%s) :=\n'
+            'let %s := st__ in\n'
+            'if %s\n then match fuel__ with 0%%nat => None | S fuel__ => loop__ fuel__ (\n%s) end\n else Some st__) %s %s with\n'
+            '| None => None\n| Some st__ => let %s := st__ in\nSome (\n%s)\nend'
+            % (types, types, pat, cond, body, self.fuel, self.tup(accs, env), pat, after))
+
   # ---------------------------------------------------------------- stmts
-  MUTATING_METHODS = ('append', 'push')
+  MUTATING_METHODS = ('append', 'push', 'pop')
 
   def assigned(self, stmts, attr_targets=False):
     out = []
@@ -447,6 +623,22 @@ class Tr:
     s, rest = stmts[0], stmts[1:]
     if isinstance(s, ast.Expr) and isinstance(s.value, ast.Constant) and isinstance(s.value.value, str):
       return self.block(rest, env, tail, in_loop)           # docstring
+    if env.verbatim:
+      src = ast.unparse(s)
+      if src in env.verbatim:
+        code, env2 = env.verbatim[src](self, env)
+        return code + self.block(rest, env2, tail, in_loop)
+    if isinstance(s, ast.While):
+      return self.while_loop(s, rest, env, tail, in_loop)
+    if (self.join_ifs and isinstance(s, ast.If) and self.mode == 'value' and self.simple_assignments(list(s.body))
+        and (not s.orelse or self.simple_assignments(list(s.orelse))) and self.none_test(s.test, env) is None):
+      joined = self.join_if(s, rest, env, tail, in_loop)
+      if joined is not None:
+        return joined
+    if self.join_ifs and isinstance(s, ast.If) and self.mode == 'value' and rest:
+      joined = self.join_none_if(s, rest, env, tail, in_loop)
+      if joined is not None:
+        return joined
     if isinstance(s, ast.FunctionDef):
       if s.decorator_list or s.name in env.names:
         fail(s, 'nested function')
@@ -480,16 +672,23 @@ class Tr:
         self.seen_types[na], self.seen_types[nb] = ta, tb
         return self.pre() + "let '(%s, %s) := %s in\n%s" % (na, nb, c, self.block(rest, env2, tail, in_loop))
       d = dotted(t0)
+      if (isinstance(t0, ast.Attribute) and isinstance(t0.value, ast.Name) and t0.value.id in env.names
+          and ('setattr', env.names[t0.value.id][1], t0.attr) in env.methods):
+        c, t = self.expr(s.value, env)
+        code, env2 = env.methods[('setattr', env.names[t0.value.id][1], t0.attr)](self, env, t0.value.id, c, t)
+        return self.pre() + code + self.block(rest, env2, tail, in_loop)
       if d is not None and ('set', d) in env.methods:
         c, t = self.expr(s.value, env)
         code, env2 = env.methods[('set', d)](self, env, c, t)
         return self.pre() + code + self.block(rest, env2, tail, in_loop)
       if isinstance(t0, ast.Subscript) and isinstance(t0.value, ast.Name) and \
-          env.names.get(t0.value.id, (None, 'x'))[1].startswith('D'):
+          env.names.get(t0.value.id, (None, 'x'))[1][:1] in ('D', 'A'):
         k, kt = self.expr(t0.slice, env)
         c, t = self.expr(s.value, env)
         nm = t0.value.id
         old = env.names[nm][1]
+        if old == 'A' + t:
+          return self.pre() + self.let(nm, '(ad_set %s %s %s)' % (env.names[nm][0], toZ(k, kt), c), old, rest, env, tail, in_loop)
         if old not in ('D?', 'D' + t):
           fail(s, 'dict value type changes')
         return self.pre() + self.let(nm, '(dd_set %s %s %s)' % (env.names[nm][0], toZ(k, kt), c), 'D' + t,
@@ -536,6 +735,9 @@ class Tr:
         args = [self.expr(a, env) for a in s.value.args]
         if fn.attr == 'append' and rt.startswith('L') and len(args) == 1 and args[0][1] == rt[1:]:
           return self.pre() + self.let(fn.value.id, '(%s ++ [%s])' % (recv, args[0][0]), rt, rest, env, tail, in_loop)
+        if (fn.attr == 'pop' and (rt.startswith('D') or rt.startswith('A')) and len(s.value.args) == 2
+            and isinstance(s.value.args[1], ast.Constant) and s.value.args[1].value is None):
+          return self.pre() + self.let(fn.value.id, '(ad_remove %s %s)' % (recv, toZ(*args[0])), rt, rest, env, tail, in_loop)
         if ('mut', rt, fn.attr) in env.methods:
           c = env.methods[('mut', rt, fn.attr)](self, recv, args)
           return self.pre() + self.let(fn.value.id, c, rt, rest, env, tail, in_loop)
@@ -565,7 +767,10 @@ class Tr:
           and not any(isinstance(x, ast.Continue) for st in list(s.body) + list(s.orelse) for x in ast.walk(st))):
         assigned = set(self.assigned(list(s.body) + list(s.orelse), attr_targets=True))
         used = {x.id for st in rest for x in ast.walk(st) if isinstance(x, ast.Name)}
-        if not (assigned & used) and 'out__' not in assigned:
+        sets_self = any(isinstance(x, ast.Assign) and len(x.targets) == 1 and isinstance(x.targets[0], ast.Attribute)
+                        and ('set', dotted(x.targets[0])) in env.methods
+                        for st in list(s.body) + list(s.orelse) for x in ast.walk(st))
+        if not (assigned & used) and 'out__' not in assigned and not (sets_self and self.fuel):
           self.kcount = getattr(self, 'kcount', 0) + 1
           k = 'k__%d' % self.kcount
           rest_code = self.block(rest, env, tail, in_loop)
@@ -617,6 +822,10 @@ class Tr:
         fail(s, 'raise inside a loop')
       it, itt = self.expr(s.iter, env)
       pre = self.pre()
+      if itt == 'S':
+        it, itt = '(ascending %s)' % it, 'LN'      # CPython iterates a set of small ints in ascending order
+      elif itt.startswith('D') and itt != 'D?':
+        it, itt = '(map fst %s)' % it, 'LZ'        # dict: keys in insertion order
       if not itt.startswith('L'):
         fail(s, 'iteration over ' + itt)
       et = itt[1:]
